@@ -416,6 +416,82 @@ func ruleInput(c *Ctx) {
 			return true
 		})
 		c.check(okDrop, "nextfile:drops-scanner", fd.Pos(), "nextfile abandons the current file by dropping its scanner", "the nextfile catcher does not drop the scanner: the rest of the current file would still be read")
+		// the same decided on the SSA form, whatever the state is called and however it is shaped (a []bool next to
+		// the actions, or a slice of structs holding each rule's flag): the storage that holds a boolean per rule is
+		// allocated outside the record loop, or inside it only under a test that it is still nil, and nil never flows
+		// back into it from inside the loop
+		if fn := c.ssaFunc("interp", "interp.execActions"); fn != nil {
+			holdsBool := func(t types.Type) bool {
+				sl, ok := t.Underlying().(*types.Slice)
+				if !ok {
+					return false
+				}
+				if b, ok := sl.Elem().Underlying().(*types.Basic); ok && b.Kind() == types.Bool {
+					return true
+				}
+				if st, ok := sl.Elem().Underlying().(*types.Struct); ok {
+					for i := 0; i < st.NumFields(); i++ {
+						if b, ok := st.Field(i).Type().Underlying().(*types.Basic); ok && b.Kind() == types.Bool {
+							return true
+						}
+					}
+				}
+				return false
+			}
+			// the record loop: the blocks on a cycle through a call of the record taker
+			inLoop := map[*ssa.BasicBlock]bool{}
+			for _, b := range fn.Blocks {
+				for _, in := range b.Instrs {
+					if callsNamed(in, "nextLine") {
+						for x := range reachableFrom(b) {
+							if reachableFrom(x)[b] {
+								inLoop[x] = true
+							}
+						}
+						inLoop[b] = true
+					}
+				}
+			}
+			nAlloc, badAlloc, nilBack := 0, 0, 0
+			for _, b := range fn.Blocks {
+				for _, in := range b.Instrs {
+					if ms, ok := in.(*ssa.MakeSlice); ok && holdsBool(ms.Type()) {
+						nAlloc++
+						if !inLoop[b] {
+							continue
+						}
+						lazy := false
+						for _, g := range fn.Blocks {
+							if len(g.Instrs) == 0 || !g.Dominates(b) || g == b {
+								continue
+							}
+							if ifi, ok := g.Instrs[len(g.Instrs)-1].(*ssa.If); ok {
+								if bo, ok := ifi.Cond.(*ssa.BinOp); ok && bo.Op == token.EQL && isNilConst(bo.Y) && types.Identical(bo.X.Type(), ms.Type()) && !reachableAvoiding(g.Succs[1], g)[b] {
+									lazy = true
+								}
+							}
+						}
+						if !lazy {
+							badAlloc++
+						}
+					}
+					if ph, ok := in.(*ssa.Phi); ok && holdsBool(ph.Type()) && inLoop[b] {
+						for i, e := range ph.Edges {
+							if isNilConst(e) && inLoop[b.Preds[i]] {
+								nilBack++
+							}
+						}
+					}
+				}
+			}
+			if len(inLoop) > 0 && nAlloc > 0 {
+				rangeNil = nilBack > 0
+				lazyAlloc = 1
+				if badAlloc > 0 || nAlloc != 1 {
+					lazyAlloc = nAlloc + badAlloc + 1
+				}
+			}
+		}
 		c.check(!rangeNil && lazyAlloc == 1, "range-state", fd.Pos(), "range-pattern state is allocated once, lazily, and never discarded during the run", "the range-pattern state is reset or re-allocated while records are being processed: a range opened on an earlier record (or in an earlier file, before nextfile) is forgotten")
 	}
 
@@ -438,6 +514,72 @@ func ruleInput(c *Ctx) {
 			}
 			return true
 		})
+		// the same on the SSA form, by role: the call that runs END (execute on a field called End/end of the compiled
+		// program, under whatever name the interpreter keeps it) is reachable from the exit edge of every test of the
+		// exit sentinel that comes before it
+		if fn := c.ssaFunc("interp", "interp.executeAll"); fn != nil {
+			var endBlocks []*ssa.BasicBlock
+			allInstrs(fn, func(in ssa.Instruction) {
+				call, ok := in.(ssa.CallInstruction)
+				if !ok || call.Common().StaticCallee() == nil || call.Common().StaticCallee().Name() != "execute" || len(call.Common().Args) < 2 {
+					return
+				}
+				if f, _ := loadedField(call.Common().Args[1]); f != nil && strings.EqualFold(f.Name(), "end") {
+					endBlocks = append(endBlocks, in.Block())
+				}
+			})
+			if len(endBlocks) > 0 {
+				good := true
+				for _, g := range fn.Blocks {
+					if len(g.Instrs) == 0 {
+						continue
+					}
+					ifi, ok := g.Instrs[len(g.Instrs)-1].(*ssa.If)
+					if !ok {
+						continue
+					}
+					bo, ok := ifi.Cond.(*ssa.BinOp)
+					if !ok || (bo.Op != token.EQL && bo.Op != token.NEQ) {
+						continue
+					}
+					isExit := false
+					for _, side := range []ssa.Value{bo.X, bo.Y} {
+						if ld, ok := side.(*ssa.UnOp); ok && ld.Op == token.MUL {
+							if gl, ok := ld.X.(*ssa.Global); ok && gl.Name() == "errExit" {
+								isExit = true
+							}
+						}
+					}
+					if !isExit {
+						continue
+					}
+					// only tests made before END runs matter
+					before := false
+					for _, eb := range endBlocks {
+						if reachableFrom(g)[eb] {
+							before = true
+						}
+					}
+					if !before {
+						continue
+					}
+					exitEdge := g.Succs[0]
+					if bo.Op == token.NEQ {
+						exitEdge = g.Succs[1]
+					}
+					reaches := false
+					for _, eb := range endBlocks {
+						if exitEdge == eb || reachableFrom(exitEdge)[eb] {
+							reaches = true
+						}
+					}
+					if !reaches {
+						good = false
+					}
+				}
+				endUncond = good
+			}
+		}
 		c.check(endUncond, "exit:END-runs", ea.Pos(), "END is executed as an unconditional step of executeAll (also after exit in BEGIN or the main loop)", "executeAll no longer runs END unconditionally after BEGIN/main processing: `exit` in BEGIN or a rule would skip END")
 		c.check(retStatus >= 2, "exit:status-returned", ea.Pos(), "normal returns of executeAll return the stored exit status with a nil error", "executeAll does not return the stored exit status on its normal paths")
 	}
